@@ -43,7 +43,82 @@ func init() {
 		skelTarget{Name: "ShellOperator.Start", File: "pkg/shell-operator/operator.go", Recv: "ShellOperator", Func: "Start",
 			Fields: []string{}, Calls: []string{"bootstrapMainQueue", "StartMain", "initAndStartHookQueues", "Start"}},
 	)
-	factFns = append(factFns, factsC03)
+	factFns = append(factFns, factsC03, factsC03w3)
+}
+
+// third wave: the key of the per-hook schedule links map, and the locks on the way from the task
+// handler to the hook process (a lock held around the execution would couple the queues a hook is bound in)
+func factsC03w3(l *leanDefs) {
+	// every index expression used with c.ScheduleLinks (assignment or delete) in the schedule controller
+	keys := map[string]bool{}
+	if f := parse("pkg/hook/controller/schedule_bindings_controller.go"); f != nil {
+		ast.Inspect(f, func(n ast.Node) bool {
+			switch x := n.(type) {
+			case *ast.IndexExpr:
+				if sel, ok := x.X.(*ast.SelectorExpr); ok && sel.Sel.Name == "ScheduleLinks" {
+					keys[exprStr(x.Index)] = true
+				}
+			case *ast.CallExpr:
+				if id, ok := x.Fun.(*ast.Ident); ok && id.Name == "delete" && len(x.Args) == 2 {
+					if sel, ok := x.Args[0].(*ast.SelectorExpr); ok && sel.Sel.Name == "ScheduleLinks" {
+						keys[exprStr(x.Args[1])] = true
+					}
+				}
+			}
+			return true
+		})
+	} else {
+		keys["<file not found>"] = true
+	}
+	l.def("c03_scheduleLinksKeys", "List String", leanStrList(sortedKeys(keys)),
+		"pkg/hook/controller/schedule_bindings_controller.go: index expressions used with ScheduleLinks")
+
+	// Lock/RLock calls in the functions between the queue worker and the hook process, and
+	// mutex-typed fields of the Hook struct
+	locks := map[string]bool{}
+	scan := func(file, recv, fn string) {
+		fd := findFunc(file, recv, fn)
+		if fd == nil || fd.Body == nil {
+			locks["<"+recv+"."+fn+" not found>"] = true
+			return
+		}
+		ast.Inspect(fd.Body, func(n ast.Node) bool {
+			if ce, ok := n.(*ast.CallExpr); ok {
+				if sel, ok := ce.Fun.(*ast.SelectorExpr); ok && (sel.Sel.Name == "Lock" || sel.Sel.Name == "RLock") {
+					locks[recv+"."+fn+":"+exprStr(sel.X)+"."+sel.Sel.Name] = true
+				}
+			}
+			return true
+		})
+	}
+	scan("pkg/shell-operator/operator.go", "ShellOperator", "taskHandler")
+	scan("pkg/shell-operator/operator.go", "ShellOperator", "taskHandleHookRun")
+	scan("pkg/shell-operator/operator.go", "ShellOperator", "handleRunHook")
+	scan("pkg/hook/hook.go", "Hook", "Run")
+	scan("pkg/hook/hook.go", "Hook", "RateLimitWait")
+	scan("pkg/executor/executor.go", "Executor", "RunAndLogLines")
+	scan("pkg/executor/executor.go", "Executor", "Output")
+	if f := parse("pkg/hook/hook.go"); f != nil {
+		ast.Inspect(f, func(n ast.Node) bool {
+			ts, ok := n.(*ast.TypeSpec)
+			if !ok || ts.Name.Name != "Hook" {
+				return true
+			}
+			if st, ok := ts.Type.(*ast.StructType); ok {
+				for _, fld := range st.Fields.List {
+					t := exprStr(fld.Type)
+					if strings.Contains(t, "Mutex") {
+						for _, nm := range fld.Names {
+							locks["Hook."+nm.Name+":"+t] = true
+						}
+					}
+				}
+			}
+			return false
+		})
+	}
+	l.def("c03_hookExecutionLocks", "List String", leanStrList(sortedKeys(locks)),
+		"taskHandler, taskHandleHookRun, handleRunHook, Hook.Run, Hook.RateLimitWait, Executor.RunAndLogLines/Output: Lock/RLock calls; mutex fields of struct Hook")
 }
 
 // string literals assigned to a field named Queue in the hook-config converters, literals passed to
